@@ -31,6 +31,9 @@ func (v *VerifRouter) Close() { v.r.close(errors.New("verif: close")) }
 
 func VerifQuiet() { mlog.SetLvl(zerolog.Disabled) }
 
+// VerifLogDiscard: log everything (trace level) into io.Discard, so that the log-formatting code runs.
+func VerifLogDiscard() { mlog.VerifDiscard() }
+
 // VerifPackReq is router.packReq on a router that has only the ecs option set.
 func VerifPackReq(ecs bool, name []byte, typ, class uint16, addr netip.Addr) ([]byte, error) {
 	r := &router{}
